@@ -1278,3 +1278,100 @@ def jobs(tier):
     if tier != 'quick':
         q += [(('a', 'b', 'c'), 'a', 1, 1), (('a', 'b', 'c'), 'c', 3, 0), (('a', 'b', 'c'), 'd', 2, 3), (('ab', 'a'), 'a', 0, 1), ((), 'k', 0, 2)]
     return _jobs_begintuple(tier) + [(h_record_field, a, 900) for a in q]
+
+
+# ------------------------------------------------------------------------------------------------ strings are reproduced byte for byte
+SB = 'src/libawkward/builder/StringBuilder.cpp'
+
+
+@guard
+def h_string_append(n, terminated):
+    """StringBuilder::string(x, length, encoding) with n bytes (an explicit length, or a NUL-terminated text when length < 0): the content grows by
+    exactly those bytes, in order and unchanged (NUL bytes inside an explicit-length string included), one offset = the new content length is
+    appended, and everything stored before is untouched"""
+    from .cpp01 import struct_of
+    mod = module_of(SB)
+    fo, sz, al, fields = mod.types.struct_layout(struct_of(mod, '_ZN7awkward13StringBuilder6stringEPKclS2_'))
+    m = MCtx([SB, GB, 'src/libawkward/builder/ArrayBuilderOptions.cpp', 'src/libawkward/kernel-dispatch.cpp'], unwind=n + 8, stubs=dict(COMMON_STUBS))
+    C, NO = m.bv('contentlength'), m.bv('noffsets')
+    m.assume(C >= 0, C <= 2 ** 30, NO >= 1, NO <= 2 ** 20)
+    m.record('ctrl', {0: (NULL, 8), 8: (z3.BitVecVal(1, 32), 4), 12: (z3.BitVecVal(1, 32), 4)})
+    st0 = State({}, m.mem, z3.BoolVal(True))
+    vt = m.eng.global_ptr(st0, '@_ZTVN7awkward13StringBuilderE', mod)
+    obuf = m.array('offsets', ('i', 64), NO + 2)
+    cbuf = m.array('content', ('i', 8), C + n + 2)
+    x = m.array('text', ('i', 8), n + 1, const=True)
+    o0, c0, x0 = (z3.Array(nm, z3.BitVecSort(64), z3.BitVecSort(b)) for nm, b in (('offsets', 64), ('content', 8), ('text', 8)))
+    xs = [z3.Select(x0, BV(i)) for i in range(n + 1)]
+    if terminated:
+        for i in range(n):
+            m.assume(xs[i] != 0)
+        m.assume(xs[n] == 0)
+    cells = {0: (Ptr(vt.obj, 16), 8), 8: (Ptr('sb', 0), 8), 16: (Ptr('ctrl', 0), 8), fo[1]: (BV(8), 8), fo[1] + 8: (z3.FPVal(1.5, z3.Float64()), 8), fo[4]: (NULL, 8)}
+    for base, buf, ln, cap in ((fo[2], obuf, NO, NO + 2), (fo[3], cbuf, C, C + n + 2)):
+        cells.update({base: (BV(8), 8), base + 8: (z3.FPVal(1.5, z3.Float64()), 8), base + 16: (buf, 8), base + 24: (NULL, 8), base + 32: (ln, 8), base + 40: (cap, 8)})
+    this = m.record('sb', cells)
+    m.record('ret', {})
+    out = m.call('_ZN7awkward13StringBuilder6stringEPKclS2_', [Ptr('ret', 0), this, x, BV(-1) if terminated else BV(n), NULL])
+    o = out.mem.o['sb']
+    o1, c1 = out.mem.o['offsets'].arr, out.mem.o['content'].arr
+    j = z3.BitVec('j!pos', 64)
+    obls = [('appending a string does not raise', out.raised),
+            ('the content grows by exactly the bytes of the string', o.cells[fo[3] + 32][0] != C + n),
+            ('one offset is appended', o.cells[fo[2] + 32][0] != NO + 1),
+            ('the new offset is the new content length', z3.Select(o1, NO) != C + n),
+            ('earlier offsets are untouched', z3.And(j >= 0, j < NO, z3.Select(o1, j) != z3.Select(o0, j))),
+            ('earlier content is untouched', z3.And(j >= 0, j < C, z3.Select(c1, j) != z3.Select(c0, j)))]
+    for i in range(n):
+        obls.append(('byte %d of the string is stored unchanged' % i, z3.Select(c1, C + i) != xs[i]))
+
+    def replay(model, ent_):
+        import subprocess, os
+        ev = lambda t: model.eval(t, model_completion=True)
+        Cv, NOv = ev(C).as_signed_long(), ev(NO).as_signed_long()
+        if Cv > 200 or NOv > 50:
+            return False, 'earlier content too long to replay', {}
+        bs = [ev(b).as_long() for b in xs[:n]]
+        drv = NATIVE_PREFIX.replace('#include "awkward/builder/GrowableBuffer.h"', '#include "awkward/builder/GrowableBuffer.h"\n#include "awkward/builder/StringBuilder.h"') + r'''
+int main(int argc, char** argv) {
+  // argv: C NO terminated n bytes...
+  long long C = atoll(argv[1]), NO = atoll(argv[2]); bool term = atoi(argv[3]) != 0; int n = atoi(argv[4]);
+  ArrayBuilderOptions opts(8, 1.5);
+  BuilderPtr b = StringBuilder::fromempty(opts, "utf-8");
+  StringBuilder* sb = dynamic_cast<StringBuilder*>(b.get());
+  // reach the state: NO offsets (the first is 0), C content bytes
+  std::string filler((size_t)C, 'q');
+  if (NO >= 2) { b->string(filler.c_str(), C, "utf-8"); for (long long i = 2; i < NO; i++) b->string("", 0, "utf-8"); }
+  else if (C != 0) { printf("bad=0 (state not reachable through the API)\n"); return 0; }
+  std::vector<char> x; for (int i = 0; i < n; i++) x.push_back((char)atoi(argv[5 + i])); x.push_back(0);
+  long long C0 = sb->content_.length(), N0 = sb->offsets_.length();
+  b->string(x.data(), term ? -1 : n, "utf-8");
+  int bad = 0;
+  if (sb->content_.length() != C0 + n) bad |= 1;
+  if (sb->offsets_.length() != N0 + 1) bad |= 2;
+  else if (sb->offsets_.ptr().get()[N0] != C0 + n) bad |= 4;
+  for (int i = 0; i < n && C0 + i < sb->content_.length(); i++) if (sb->content_.ptr().get()[C0 + i] != (uint8_t)x[(size_t)i]) bad |= 8;
+  for (long long i = 0; i < C0; i++) if (sb->content_.ptr().get()[i] != 'q') bad |= 16;
+  printf("bad=%d\n", bad);
+  return bad ? 1 : 0;
+}
+'''
+        try:
+            exe = fullnative_link(drv)
+        except Exception as e:      # noqa
+            return False, 'replay driver did not build: %s' % str(e)[-600:], {}
+        r = subprocess.run([exe, str(Cv), str(NOv), str(int(terminated)), str(n)] + [str(b_) for b_ in bs], capture_output=True, text=True, timeout=30,
+                           env=dict(os.environ, ASAN_OPTIONS='detect_leaks=0', UBSAN_OPTIONS='halt_on_error=1:exitcode=87'), errors='replace')
+        payload = dict(bytes=bs, content_before=Cv, offsets_before=NOv, terminated=terminated, native=r.stdout.strip())
+        if r.returncode != 0:
+            return True, 'string of bytes %s (%s) after %d content bytes: native builder gives %s %s' % (bs, 'NUL-terminated' if terminated else 'explicit length', Cv, r.stdout.strip(), r.stderr[-200:] if not r.stdout.strip() else ''), payload
+        return False, 'native builder agrees (%s)' % r.stdout.strip(), payload
+    return mdischarge(m, 'StringBuilder::string %d bytes%s' % (n, ' (NUL-terminated)' if terminated else ''), obls, [], replay=replay, prefer=[C <= 4, NO <= 3, NO >= 2],
+                      extra=dict(bounds='%d bytes of any value (non-zero when NUL-terminated), any earlier content up to 2^30 bytes and 2^20 offsets, buffers with room' % n))
+
+
+_jobs_field = jobs
+
+
+def jobs(tier):
+    return _jobs_field(tier) + [(h_string_append, (n, t), 900) for n in ((0, 3) if tier == 'quick' else (0, 1, 2, 3, 5)) for t in (False, True)]
